@@ -20,7 +20,7 @@ pub struct PNode<B: NetworkBehaviour> {
     pub key: Keypair,
     pub swarm: Rc<RefCell<Swarm<B>>>,
     pub unit: UnitId,
-    pub events: Rc<RefCell<Vec<(u64, SwarmEvent<B::ToSwarm>)>>>,
+    pub events: Rc<RefCell<Vec<(u64, Duration, SwarmEvent<B::ToSwarm>)>>>,
     pub listen_port: u16,
 }
 
@@ -43,7 +43,7 @@ where
         let transport = SimTransport { node: idx }.boxed();
         let swarm = Swarm::new(transport, behaviour(&key), peer, knobs.config(idx));
         let swarm = Rc::new(RefCell::new(swarm));
-        let events: Rc<RefCell<Vec<(u64, SwarmEvent<B::ToSwarm>)>>> = Default::default();
+        let events: Rc<RefCell<Vec<(u64, Duration, SwarmEvent<B::ToSwarm>)>>> = Default::default();
         let (s2, e2) = (swarm.clone(), events.clone());
         let unit = spawn(format!("swarm-n{idx}"), async move {
             futures::future::poll_fn(move |cx| {
@@ -51,7 +51,7 @@ where
                 match s.poll_next_unpin(cx) {
                     Poll::Ready(Some(ev)) => {
                         trace!("n{idx} EVENT {}", crop(&format!("{ev:?}"), 260));
-                        e2.borrow_mut().push((next_seq(), ev));
+                        e2.borrow_mut().push((next_seq(), elapsed(), ev));
                         cx.waker().wake_by_ref();
                         Poll::<()>::Pending
                     }
@@ -96,7 +96,12 @@ where
 
     /// Events recorded since the last call.
     pub fn take_events(&self) -> Vec<(u64, SwarmEvent<B::ToSwarm>)> {
-        std::mem::take(&mut *self.events.borrow_mut())
+        std::mem::take(&mut *self.events.borrow_mut()).into_iter().map(|(s, _, e)| (s, e)).collect()
+    }
+
+    /// Same, with the virtual time at which each event was returned by the Swarm.
+    pub fn take_events_timed(&self) -> Vec<(Duration, SwarmEvent<B::ToSwarm>)> {
+        std::mem::take(&mut *self.events.borrow_mut()).into_iter().map(|(_, t, e)| (t, e)).collect()
     }
 
     pub fn connections_to(&self, peer: &PeerId) -> bool {
